@@ -234,6 +234,7 @@ class Agg:
                 d = self.refs_by_key.setdefault(ent[3], {})
                 d.setdefault(ent[2], (job['seed'], ent[0], ent[1]))
                 self.ref_workers.setdefault(ent[3], set()).add(job['seed'])
+        self.skipped_slow = getattr(self, 'skipped_slow', 0) + st.get('skipped_slow', 0)
         self.state_windows += st.get('state_windows', 0)
         self.aimed += st.get('aimed_crashes', 0)
         self.arms[job['arm']] = self.arms.get(job['arm'], 0) + 1
@@ -541,6 +542,7 @@ def main(argv=None):
                 'in_flight_state_windows_seen': agg.state_windows,
                 'crashes_aimed_into_state_windows': agg.aimed,
                 'reference_hash_seed': 0,
+                'calls_skipped_because_reference_exceeded_time_limit': getattr(agg, 'skipped_slow', 0),
                 'distinct_reference_keys': len(agg.refs_by_key),
                 'reference_keys_computed_by_several_interpreters': sum(
                     1 for v in agg.ref_workers.values() if len(v) > 1),
